@@ -19,6 +19,7 @@ type Runner struct {
 	MaxTime time.Duration
 	NoReset bool // keep counting backend calls across CommitStart (sweeps count from Begin)
 	OpGate  bool // every API operation is a scheduling point too (concurrent histories)
+	Deadline bool // give every transaction a context deadline of MaxTime + 3 s (the caller's deadline of C15)
 	obsN    int
 }
 
@@ -212,6 +213,11 @@ func (r *Runner) Observe(ctx context.Context, p *Program) error {
 
 // RunTxn runs a whole transaction spec sequentially.
 func (r *Runner) RunTxn(ctx context.Context, label string, p *Program, spec TxnSpec, fault *decor.Fault) (bool, error) {
+	if r.Deadline {
+		var cancel context.CancelFunc
+		ctx, cancel = context.WithTimeout(ctx, r.MaxTime+3*time.Second)
+		defer cancel()
+	}
 	lt, err := r.BeginTxn(ctx, label, p, spec)
 	if err != nil {
 		return false, err
